@@ -2,7 +2,7 @@ pub mod dot {
 use vstd::prelude::*;
 use std::cmp::{Ordering, PartialOrd};
 use std::hash::{Hash, Hasher};
-use vstd::std_specs::cmp::{PartialEqSpecImpl, PartialOrdSpecImpl, PartialEqSpec, PartialOrdSpec};
+use vstd::std_specs::cmp::{PartialEqSpecImpl, PartialOrdSpecImpl, PartialEqSpec, PartialOrdSpec, OrdSpec};
 verus! {
 
 //@extract struct src/dot.rs Dot
@@ -121,6 +121,65 @@ pub struct OrdDot<A: Ord> {
     pub counter: u64,
 }
 //@end
+
+// assumed semantics of #[derive(Clone, PartialEq, Eq, PartialOrd, Ord)] on OrdDot: field-wise clone / equality,
+// lexicographic order (actor first, then counter)
+impl<A: Ord + Clone> Clone for OrdDot<A> {
+    #[verifier::external_body]
+    fn clone(&self) -> (r: Self) ensures cloned(self.actor, r.actor), r.counter == self.counter { OrdDot { actor: self.actor.clone(), counter: self.counter } }
+}
+pub open spec fn orddot_cmp<A: Ord>(x: OrdDot<A>, y: OrdDot<A>) -> Ordering {
+    match x.actor.cmp_spec(&y.actor) {
+        Ordering::Equal => if x.counter < y.counter { Ordering::Less } else if x.counter == y.counter { Ordering::Equal } else { Ordering::Greater },
+        o => o,
+    }
+}
+impl<A: Ord> PartialEqSpecImpl for OrdDot<A> {
+    open spec fn obeys_eq_spec() -> bool { vstd::laws_cmp::obeys_cmp::<A>() }
+    open spec fn eq_spec(&self, other: &Self) -> bool { orddot_cmp(*self, *other) == Ordering::Equal }
+}
+impl<A: Ord> PartialEq for OrdDot<A> { #[verifier::external_body] fn eq(&self, other: &Self) -> bool { self.actor == other.actor && self.counter == other.counter } }
+impl<A: Ord> Eq for OrdDot<A> {}
+impl<A: Ord> PartialOrdSpecImpl for OrdDot<A> {
+    open spec fn obeys_partial_cmp_spec() -> bool { vstd::laws_cmp::obeys_cmp::<A>() }
+    open spec fn partial_cmp_spec(&self, other: &Self) -> Option<Ordering> { Some(orddot_cmp(*self, *other)) }
+}
+impl<A: Ord> PartialOrd for OrdDot<A> { #[verifier::external_body] fn partial_cmp(&self, other: &Self) -> Option<Ordering> { Some(self.cmp(other)) } }
+impl<A: Ord> vstd::std_specs::cmp::OrdSpecImpl for OrdDot<A> {
+    open spec fn obeys_cmp_spec() -> bool { vstd::laws_cmp::obeys_cmp::<A>() }
+    open spec fn cmp_spec(&self, other: &Self) -> Ordering { orddot_cmp(*self, *other) }
+}
+impl<A: Ord> Ord for OrdDot<A> { #[verifier::external_body] fn cmp(&self, other: &Self) -> Ordering { (&self.actor, self.counter).cmp(&(&other.actor, other.counter)) } }
+
+impl<A: Ord> vstd::std_specs::convert::FromSpecImpl<OrdDot<A>> for Dot<A> {
+    open spec fn obeys_from_spec() -> bool { true }
+    open spec fn from_spec(v: OrdDot<A>) -> Self { Dot { actor: v.actor, counter: v.counter } }
+}
+impl<A: Ord> From<OrdDot<A>> for Dot<A> {
+//@extract fn src/dot.rs "From<OrdDot<A>> for Dot<A>" from
+    fn from( /*@<*/ OrdDot { actor, counter } /*@>*/ /*@ od @*/ : OrdDot<A>) -> /*@ (r: @*/ Self /*@ ) @*/
+    //@ ensures r.actor == od.actor, r.counter == od.counter,
+    {
+        //@ let OrdDot { actor, counter } = od;
+        Self { actor, counter }
+    }
+//@end
+}
+
+impl<A: Ord> vstd::std_specs::convert::FromSpecImpl<Dot<A>> for OrdDot<A> {
+    open spec fn obeys_from_spec() -> bool { true }
+    open spec fn from_spec(v: Dot<A>) -> Self { OrdDot { actor: v.actor, counter: v.counter } }
+}
+impl<A: Ord> From<Dot<A>> for OrdDot<A> {
+//@extract fn src/dot.rs "From<Dot<A>> for OrdDot<A>" from
+    fn from( /*@<*/ Dot { actor, counter } /*@>*/ /*@ d @*/ : Dot<A>) -> /*@ (r: @*/ Self /*@ ) @*/
+    //@ ensures r.actor == d.actor, r.counter == d.counter,
+    {
+        //@ let Dot { actor, counter } = d;
+        Self { actor, counter }
+    }
+//@end
+}
 
 //@extract struct src/dot.rs DotRange
 pub struct DotRange<A> {
